@@ -69,6 +69,10 @@ def capacity_cases(r, tier):
         out.append((f"[(0-{n // 2})..{n - n // 2 - 1}].len()", "-", str(n), "range-length/straddling-zero"))
         out.append((f"([0]*{n}).len()", "-", str(n), "repeat-length"))
         out.append((f"a=[0]*256; b=[0]*{min(n, 512) - 256 if n <= 512 else 257}; (a+b).len()", "-", str(n) if n <= 512 else "513", "concat-length"))
+    for n in [3, 7, 8, 9, 12, 30]:
+        out.append((f"a=[1,2]; i=0; while i<{n} {{ i=i+1; a[0:0]=a }}; a.len()", "-", str(2 ** (n + 1)), "slice-growth/self-insert"))
+        out.append((f"a=[1,2]; b=[0]*{min(2 ** n, 512)}; a[1:1]=b; a.len()", "-", str(2 + min(2 ** n, 512)), "slice-growth/insert"))
+        out.append((f"a=[0]*500; i=0; while i<{n} {{ i=i+1; a[0:1]=[7,8] }}; a.len()", "-", str(500 + n), "slice-growth/replace-one-by-two"))
     for n in [10, 19, 20, 21, 30]:
         out.append((f"s='ab'; i=0; while i<{n} {{ i=i+1; s=s+s }}; s.len()", "-", str(2 ** (n + 1)), "string-length/concat"))
         out.append((f"s='ab'; i=0; while i<{n} {{ i=i+1; s=`{{s}}{{s}}` }}; s.len()", "-", str(2 ** (n + 1)), "string-length/template"))
@@ -79,7 +83,7 @@ def must_error(what, exp):
     """cases that are beyond a documented capacity whatever the program shape: an error is the only acceptable outcome"""
     n = int(exp)
     fam = what.split("/")[0]
-    if fam in ("range-length", "repeat-length", "concat-length"):
+    if fam in ("range-length", "repeat-length", "concat-length", "slice-growth"):
         return n > 512
     if fam in ("block-nesting", "template-nesting"):
         return what.endswith("/over")
